@@ -26,7 +26,7 @@ ASSUMPTIONS = [
     "loss terms: the pointwise loss is evaluated on the explicit grid of the separable batch (per facet for the border)",
 ]
 TIMEOUT = {"quick": 1800, "thorough": 5400}
-MIN_COUNTERS = {"quick": {"grid_values_compared": 1500, "loss_terms_compared": 40, "dyn_grids_compared": 30},
+MIN_COUNTERS = {"quick": {"grid_values_compared": 700, "loss_terms_compared": 40, "dyn_grids_compared": 30},
                 "thorough": {"grid_values_compared": 30000, "loss_terms_compared": 600, "dyn_grids_compared": 500}}
 DYNS = ["burgers", "fisher", "fisher_rgrid", "ou", "mass", "ns"]
 TERMS = ["norm_statio", "norm_nonstatio", "ic", "dirichlet_statio", "dirichlet_nonstatio", "neumann_statio",
